@@ -214,6 +214,9 @@ class BodyEmitter:
                                     depth -= 1
                                 elif c in ",{" and depth == 0:
                                     break
+                                elif c == ";" and depth == 0:   # a labelled statement (assert) ends with its `;`
+                                    e += 1
+                                    break
                                 e += 1
                             props = [x for x in mm.group(2).split(",") if x]
                             self.out.append(Seg(parts[k][pos:e], "contract", {"fn": self.fn, "tline": tline, "label": mm.group(1),
